@@ -1,37 +1,110 @@
-"""Generators, adapters and the direct oracle for the two ragged containers (C05, C06, C07)."""
+"""Generators, adapters and the direct oracle for the two ragged containers (C05, C06, C07).
+
+Hardening round: besides the small random containers this module produces
+  * containers at scale (`gen_cells_scaled`: many rows, many columns, long cells, >= 16 385 / 32 769 values gathered
+    by one selection - always with empty cells, all-empty rows and zero-width columns mixed in),
+  * payloads of every dtype the containers accept (int64, int32, float32, float64) with sentinel look-alikes and
+    edge magnitudes (+-inf, -0.0, 2^24+2, values not representable in float32 ...) coded as model integers >= 100,
+  * index tensors of dtype int64 / int32, as non-contiguous views, and - the aliasing family - the SAME tensor
+    object used on both axes / in several steps of a program (`share`), with the caller's tensor compared with
+    its original content afterwards,
+  * structured long index lists (runs, reversed runs, strides, constants, sorted with duplicates, permutations)
+    with a few interior entries disturbed, so that a fast path recognised by a cheap test on the end points is
+    exercised with an input that only looks like its precondition.
+"""
 from __future__ import annotations
 
 import math
+import struct
 
+import numpy as np
 import torch
 
 from torch_frame.data import MultiEmbeddingTensor as MET
 from torch_frame.data import MultiNestedTensor as MNT
 
+from harness import stress
+
 MISSING = -1   # model-side code of a missing entry (int payload: -1 itself; float payload: NaN)
 
 
 # ------------------------------------------------------------------ payload coding
+# A cell entry is a model integer ("code").  int payloads: the code is the stored integer.  float payloads:
+# code -1 = NaN (missing), small codes v = the value v/2, codes >= SPECIAL_BASE = an entry of the special table.
+_DTYPES = {'int': torch.long, 'int32': torch.int32, 'float': torch.float32, 'float64': torch.float64}
+PAYLOADS = tuple(_DTYPES)
+SPECIAL_BASE = 100
+
+
+def is_int(payload):
+    return payload in ('int', 'int32')
+
+
+def _fbits(x):
+    return struct.unpack('<Q', struct.pack('<d', float(x)))[0]
+
+
+_PLAIN_BITS = {_fbits(k * 0.5) for k in range(-40, 41) if k != -1}
+# specials that are exact in float32 first, then the float64-only ones
+_SPEC32 = [float(np.float32(x)) for x in stress.SPECIAL_F32 if _fbits(float(np.float32(x))) not in _PLAIN_BITS]
+_SPEC64 = [x for x in stress.SPECIAL_F64 if _fbits(x) not in _PLAIN_BITS]
+_SPECIALS = {'float': _SPEC32, 'float64': _SPEC32 + _SPEC64}
+_REV = {p: {_fbits(x): SPECIAL_BASE + k for k, x in enumerate(xs)} for p, xs in _SPECIALS.items()}
+# integer sentinel look-alikes / edge magnitudes (stored literally)
+_INT_SPECIALS = {'int32': [-2, -7, 2 ** 24 + 1, 2 ** 31 - 1, -2 ** 31],
+                 'int': [-2, -7, 2 ** 24 + 1, 2 ** 31 - 1, -2 ** 31, 2 ** 31, 2 ** 53 + 1, -2 ** 40, 2 ** 62]}
+
+
+def special_codes(payload):
+    """codes of the sentinel look-alikes / edge magnitudes that are legal non-missing entries for this payload"""
+    if is_int(payload):
+        return list(_INT_SPECIALS[payload])
+    return [-2] + [SPECIAL_BASE + k for k in range(len(_SPECIALS[payload]))]      # -2 = the value -1.0
+
+
 def enc(v, payload):
-    if payload == 'int':
+    if is_int(payload):
         return int(v)
-    return float('nan') if v == MISSING else v * 0.5
+    if v == MISSING:
+        return float('nan')
+    if v >= SPECIAL_BASE:
+        return _SPECIALS[payload][v - SPECIAL_BASE]
+    return v * 0.5
 
 
 def dec(x, payload):
-    if payload == 'int':
+    """inverse of `enc`; a value no code stands for is returned as a 'raw:...' string (never equal to a code)"""
+    if is_int(payload):
         return int(x)
-    return MISSING if math.isnan(x) else int(round(x * 2))
+    if math.isnan(x):
+        return MISSING
+    c = _REV[payload].get(_fbits(x))
+    if c is not None:
+        return c
+    y = x * 2
+    if _fbits(x) in _PLAIN_BITS and y == round(y):
+        return int(y)
+    return 'raw:' + repr(x)
 
 
 def dtype_of(payload):
-    return torch.long if payload == 'int' else torch.float32
+    return _DTYPES[payload]
 
 
 # ------------------------------------------------------------------ generation
-def gen_cells(rng, kind, R=None, C=None):
+def _value_gen(rng, payload):
+    """entry generator of one container: plain small codes, or (30% of the containers that know their payload)
+    a pool that also holds the sentinel look-alikes / edge magnitudes of the payload"""
+    if payload is not None and rng.random() < .3:
+        sp = special_codes(payload)
+        return (lambda: rng.choice(sp) if rng.random() < .3 else rng.randint(-1, 9)), True
+    return (lambda: rng.randint(-1, 9)), False
+
+
+def gen_cells(rng, kind, R=None, C=None, payload=None):
     R = rng.choice([0, 1, 1, 2, 3, 4, 5, 6]) if R is None else R
     C = rng.choice([0, 1, 1, 2, 3, 4, 5]) if C is None else C
+    val, special = _value_gen(rng, payload)
     if kind == 'mnt':
         mode = rng.choice(['mixed', 'mixed', 'mixed', 'allempty', 'long'])
         def ln():
@@ -40,11 +113,115 @@ def gen_cells(rng, kind, R=None, C=None):
             if mode == 'long':
                 return rng.randint(0, 4)
             return rng.choice([0, 0, 1, 2, 3])
-        cells = [[[rng.randint(-1, 9) for _ in range(ln())] for _ in range(C)] for _ in range(R)]
-        return {'kind': 'mnt', 'R': R, 'C': C, 'cells': cells}
-    widths = [rng.choice([0, 1, 1, 2, 3]) if rng.random() < .15 else rng.choice([1, 1, 2, 3]) for _ in range(C)]
-    cells = [[[rng.randint(-1, 9) for _ in range(w)] for w in widths] for _ in range(R)]
-    return {'kind': 'met', 'R': R, 'C': C, 'widths': widths, 'cells': cells}
+        cells = [[[val() for _ in range(ln())] for _ in range(C)] for _ in range(R)]
+        out = {'kind': 'mnt', 'R': R, 'C': C, 'cells': cells}
+    else:
+        widths = [rng.choice([0, 1, 1, 2, 3]) if rng.random() < .15 else rng.choice([1, 1, 2, 3]) for _ in range(C)]
+        cells = [[[val() for _ in range(w)] for w in widths] for _ in range(R)]
+        out = {'kind': 'met', 'R': R, 'C': C, 'widths': widths, 'cells': cells}
+    if special:
+        out['special'] = True
+    if payload is not None and rng.random() < .08:
+        out['storage'] = 'strided'        # values / offset handed to the constructor as non-contiguous views
+    return out
+
+
+SHAPES = {'mnt': ['tall', 'tall', 'wide', 'longcells', 'heavy', 'heavy'],
+          'met': ['tall', 'tall', 'wide', 'widecol', 'heavy']}
+
+
+def heavy_total(rng, level):
+    """number of values one gather has to move in a `heavy` container: just above the thresholds at which vectorised
+    gathers switch algorithm (16 384, 32 768; thorough: also 65 536) - cheap to reach with a moderate number of rows"""
+    return rng.choice(stress.LADDER_BIG[:2] if level < 2 else stress.LADDER_BIG) + rng.choice([0, 1, 2])
+
+
+def gen_cells_scaled(rng, kind, level, payload=None, shape=None, R=None, C=None):
+    """a container that is large in ONE of the sizes the properties quantify over (rows / columns / cell length /
+    total gathered values), with the ingredients of the small cases kept: empty cells, all-empty rows (leading,
+    interior, consecutive, trailing), zero-width columns, missing entries, special values"""
+    shape = shape or rng.choice(SHAPES[kind])
+    val, special = _value_gen(rng, payload)
+    pe = rng.choice([.1, .3, .6])                      # probability of an empty cell
+    R_, C_ = R, C                                      # sizes fixed by the caller (a feature of a frame)
+    if kind == 'met' and shape == 'longcells':
+        shape = 'widecol'
+    if kind == 'mnt':
+        if shape == 'tall':
+            R, C = stress.pick_size(rng, level, 4099), rng.choice([1, 2, 3])
+            mx = 3
+        elif shape == 'wide':
+            R, C = rng.choice([1, 2, 3, 5]), stress.pick_size(rng, level, 1027)
+            mx = 3
+        elif shape == 'longcells':
+            R, C = rng.choice([1, 2, 3, 4]), rng.choice([1, 2, 3])
+            mx = 3
+        else:
+            T = heavy_total(rng, level)
+            R, C = rng.choice([65, 96, 140, 257]), rng.choice([1, 1, 2])
+            mx = 3
+        R, C = (R if R_ is None else R_), (C if C_ is None else C_)
+        empty_rows = set()
+        if R >= 3:
+            for _ in range(rng.choice([0, 1, 2, 4])):
+                a = rng.choice([0, R - 1, rng.randrange(R), rng.randrange(R)])
+                for r in range(a, min(R, a + rng.choice([1, 1, 2, 5]))):
+                    empty_rows.add(r)
+        cells = [[[] if (r in empty_rows or rng.random() < pe) else [val() for _ in range(rng.randint(1, mx))]
+                  for _ in range(C)] for r in range(R)]
+        if shape == 'longcells' and R * C:
+            for _ in range(rng.choice([1, 1, 2])):
+                r, c = rng.randrange(R), rng.randrange(C)
+                cells[r][c] = [val() for _ in range(stress.pick_size(rng, level, 4099))]
+        if shape == 'heavy':
+            # column 0 carries >= T values spread over the non-empty rows (other columns stay light)
+            live = [r for r in range(R) if r not in empty_rows and rng.random() >= pe] or [R // 2]
+            per = -(-T // len(live))
+            left = T
+            for r in live:
+                n = min(left, rng.randint(max(per - per // 2, 1), per + per // 2)) if r != live[-1] else left
+                cells[r][0] = [val() for _ in range(max(n, 0))]
+                left -= max(n, 0)
+            for r in range(R):
+                if r not in live:
+                    cells[r][0] = []
+        out = {'kind': 'mnt', 'R': R, 'C': C, 'cells': cells}
+    else:
+        if shape == 'tall':
+            R, C = stress.pick_size(rng, level, 4099), rng.choice([1, 2, 3])
+            widths = [rng.choice([0, 1, 2, 3]) for _ in range(C)]
+        elif shape == 'wide':
+            R, C = rng.choice([0, 1, 2, 3]), stress.pick_size(rng, level, 1027)
+            widths = [0 if rng.random() < pe / 2 else rng.choice([1, 1, 2, 3]) for _ in range(C)]
+        elif shape == 'widecol':
+            R, C = rng.choice([1, 2, 3]), rng.choice([1, 2, 3, 4])
+            widths = [rng.choice([0, 1, 2]) for _ in range(C)]
+            widths[rng.randrange(C)] = stress.pick_size(rng, level, 4099)
+        else:
+            T = heavy_total(rng, level)
+            R, C = rng.choice([1, 1, 2]), rng.choice([3, 5, 9, 17])
+            cuts = sorted(rng.randint(0, T) for _ in range(C - 1))
+            widths = [b - a for a, b in zip([0] + cuts, cuts + [T])]
+            for _ in range(rng.choice([1, 2])):             # zero-width columns between wide ones
+                widths[rng.randrange(C)] = 0
+            widths[rng.choice([0, C - 1])] += T - sum(widths)
+        if R_ is not None:
+            R = R_
+        if C_ is not None and C_ != C:
+            widths = (widths * C_)[:C_] if C_ > C else sorted(widths, reverse=True)[:C_]
+            C = C_
+        cells = [[[val() for _ in range(w)] for w in widths] for _ in range(R)]
+        out = {'kind': 'met', 'R': R, 'C': C, 'widths': widths, 'cells': cells}
+    out['shape'] = shape
+    if special:
+        out['special'] = True
+    if payload is not None and rng.random() < .1:
+        out['storage'] = 'strided'
+    return out
+
+
+def n_values(spec):
+    return sum(len(c) for row in spec['cells'] for c in row)
 
 
 def canonical_repr(spec):
@@ -65,15 +242,29 @@ def canonical_repr(spec):
             'offset': offset}
 
 
+def _strided(t, dim=0):
+    """the same tensor as a non-contiguous view of a larger buffer (what a caller may legally hand over)"""
+    if t.numel() == 0:
+        return t
+    junk = torch.full_like(t, 5)
+    return torch.stack([t, junk], dim=t.dim())[..., 0]
+
+
 def build_real(spec, payload):
     """construct the real container directly from canonical storage (works for R=0 / C=0 too)"""
     rep = canonical_repr(spec)
     dt = dtype_of(payload)
+    view = spec.get('storage') == 'strided'
+    off = torch.tensor(rep['offset'], dtype=torch.long)
     if spec['kind'] == 'mnt':
         vals = torch.tensor([enc(v, payload) for v in rep['values']], dtype=dt)
-        return MNT(rep['R'], rep['C'], vals, torch.tensor(rep['offset'], dtype=torch.long))
+        if view:
+            vals, off = _strided(vals), _strided(off)
+        return MNT(rep['R'], rep['C'], vals, off)
     vals = torch.tensor([[enc(v, payload) for v in row] for row in rep['values']], dtype=dt).reshape(rep['R'], rep['W'])
-    return MET(rep['R'], rep['C'], vals, torch.tensor(rep['offset'], dtype=torch.long))
+    if view:
+        vals, off = _strided(vals), _strided(off)
+    return MET(rep['R'], rep['C'], vals, off)
 
 
 def real_repr(m, payload):
@@ -135,7 +326,7 @@ def gen_index(rng, n, allow_bad=True):
             is_ = [rng.randint(-n - 2, n + 1) for _ in range(max(ln, 1))]
         else:
             is_ = [rng.randint(-n, n - 1) for _ in range(ln)]
-        return {'t': 'list', 'is': is_, 'as': k}
+        return _decorate({'t': 'list', 'is': is_, 'as': k}, rng)
     if k == 'range':
         a, b, s = rng.randint(0, max(n, 1)), rng.randint(0, n + (2 if bad else 0)), rng.choice([1, 1, 2, 3, -1])
         if s == -1:
@@ -148,19 +339,141 @@ def gen_index(rng, n, allow_bad=True):
     return {'t': 'mask', 'bs': [rng.random() < p for _ in range(ln)]}
 
 
-def to_py_index(ix):
+def _decorate(ix, rng):
+    """an index tensor may be int64 or int32 and may be a non-contiguous view of a larger tensor"""
+    if ix.get('as') == 'tensor':
+        if rng.random() < .3:
+            ix['dt'] = 'int32'
+        if rng.random() < .12:
+            ix['view'] = True
+    return ix
+
+
+def _index_tensor(ix):
+    if ix['t'] == 'mask':
+        t = torch.tensor(ix['bs'], dtype=torch.bool)
+    else:
+        t = torch.tensor(ix['is'], dtype=torch.int32 if ix.get('dt') == 'int32' else torch.long)
+    if ix.get('view') and t.numel():
+        t = _strided(t)
+    return t
+
+
+def to_py_index(ix, shared=None):
+    """the Python object handed to the real code.  `shared` (a dict owned by one program run) makes every index
+    that carries the same `share` id the SAME tensor object."""
     t = ix['t']
     if t == 'int':
         return ix['i']
     if t == 'slice':
         return slice(ix['a'], ix['b'], ix['s'])
-    if t == 'list':
-        if ix.get('as') == 'range':
-            return range(*ix['range'])
-        if ix.get('as') == 'tensor':
-            return torch.tensor(ix['is'], dtype=torch.long)
+    if t == 'list' and ix.get('as') == 'range':
+        return range(*ix['range'])
+    if t == 'list' and ix.get('as') != 'tensor':
         return list(ix['is'])
-    return torch.tensor(ix['bs'], dtype=torch.bool)
+    k = ix.get('share')
+    if shared is None or k is None:
+        return _index_tensor(ix)
+    if k not in shared:
+        shared[k] = (_index_tensor(ix), list(ix['bs'] if t == 'mask' else ix['is']))
+    return shared[k][0]
+
+
+def index_intact(obj, ix):
+    """an index tensor handed to a selection still holds what the caller put into it"""
+    if not isinstance(obj, torch.Tensor):
+        return True
+    return obj.tolist() == (ix['bs'] if ix['t'] == 'mask' else ix['is'])
+
+
+# ---- long structured index lists
+def gen_big_index(rng, n, level=0, allow_bad=True, max_len=None):
+    """an index expression for an axis of (possibly large) size n: long lists with structure (runs, reversed runs,
+    strides, constants, sorted with duplicates, permutations), optionally with a few INTERIOR entries disturbed and
+    some entries written negatively; long masks; slices around the end; ~6% illegal"""
+    if n == 0:
+        return gen_index(rng, n, allow_bad)
+    bad = allow_bad and rng.random() < .06
+    k = rng.choice(['list', 'list', 'list', 'tensor', 'tensor', 'tensor', 'slice', 'mask', 'range', 'int'])
+    if k == 'int':
+        return {'t': 'int', 'i': n + rng.choice([0, 3]) if bad else rng.choice([0, n - 1, -1, -n, rng.randint(-n, n - 1)])}
+    if k == 'slice':
+        a = rng.choice([None, 0, 1, n // 2, n - 1, -n + 1, -1, rng.randint(0, n)])
+        b = rng.choice([None, n, n - 1, n + 5, -1, rng.randint(0, n)])
+        st = rng.choice([0, -1]) if bad else rng.choice([None, 1, 2, 3, 64, max(n - 1, 1)])
+        return {'t': 'slice', 'a': a, 'b': b, 's': st}
+    if k == 'mask':
+        mode = rng.choice(['p', 'p', 'p', 'all', 'none', 'hole', 'one'])
+        if mode == 'p':
+            q = rng.choice([.05, .5, .95])
+            bs = [rng.random() < q for _ in range(n)]
+        elif mode in ('all', 'hole'):
+            bs = [True] * n
+            if mode == 'hole':
+                bs[rng.randrange(n)] = False
+        else:
+            bs = [False] * n
+            if mode == 'one':
+                bs[rng.randrange(n)] = True
+        if bad:
+            bs = bs + [True] if rng.random() < .5 else bs[:-1]
+        ix = {'t': 'mask', 'bs': bs}
+        return ix
+    # ---- lists / tensors / ranges
+    ln = rng.choice([n, n, max(n - 1, 1), n + 1, stress.pick_size(rng, level, 4099), rng.randint(1, n + 2)])
+    if max_len is not None:
+        ln = min(ln, max_len)      # heavy containers: repeating rows would multiply the gathered values
+    pat = rng.choice(['run', 'run', 'identity', 'reversed', 'stride', 'constant', 'sorted', 'random', 'perm'])
+    if k == 'range':
+        pat = rng.choice(['run', 'identity', 'reversed', 'stride'])
+    if pat == 'identity':
+        ln = min(ln, n)
+        is_, rg = list(range(ln)), [0, ln, 1]
+    elif pat == 'run':
+        ln = min(ln, n)
+        a = rng.randint(0, n - ln)
+        is_, rg = list(range(a, a + ln)), [a, a + ln, 1]
+    elif pat == 'reversed':
+        ln = min(ln, n)
+        a = rng.randint(0, n - ln)
+        is_, rg = list(range(a + ln - 1, a - 1, -1)), [a + ln - 1, a - 1, -1]
+    elif pat == 'stride':
+        st = rng.choice([2, 3, 7])
+        a = rng.randint(0, min(st, n - 1))
+        is_, rg = list(range(a, n, st)), [a, n, st]
+    elif pat == 'constant':
+        is_, rg = [rng.randrange(n)] * ln, None
+    elif pat == 'sorted':
+        is_, rg = sorted(rng.randrange(n) for _ in range(ln)), None
+    elif pat == 'random':
+        is_, rg = [rng.randrange(n) for _ in range(ln)], None
+    else:
+        is_, rg = list(range(n)), None
+        rng.shuffle(is_)
+    if k == 'range' and not bad:
+        return {'t': 'list', 'is': is_, 'as': 'range', 'range': rg, 'pat': pat}
+    tag = pat
+    if len(is_) >= 4 and rng.random() < .5:
+        # disturb the interior only: the end points (and the length) still look like the undisturbed pattern
+        for _ in range(rng.choice([1, 1, 2, 5])):
+            i, j = rng.randrange(1, len(is_) - 1), rng.randrange(1, len(is_) - 1)
+            u = rng.random()
+            if u < .4:
+                is_[i], is_[j] = is_[j], is_[i]
+            elif u < .7:
+                is_[i] = is_[j]
+            else:
+                is_[i] = rng.randrange(n)
+        tag = pat + '+disturbed'
+    if rng.random() < .4:
+        q = rng.choice([.02, .3, 1.0])
+        is_ = [i - n if rng.random() < q else i for i in is_]
+        tag += '+negatives'
+    if bad:
+        is_[rng.randrange(len(is_))] = rng.choice([n, -n - 1, n + 7]) if is_ else n
+        if not is_:
+            is_ = [n]
+    return _decorate({'t': 'list', 'is': is_, 'as': 'tensor' if k != 'list' else 'list', 'pat': tag}, rng)
 
 
 def model_index(ix):
@@ -175,28 +488,65 @@ def model_index(ix):
     return {'t': 'mask', 'bs': ix['bs']}
 
 
-def gen_ops(rng, R, C, nmax=6, allow_bad=True):
-    """a selection program; tracks the (rows, cols) it expects so indices stay mostly in range"""
+def _valid_for(ix, n):
+    if ix['t'] == 'mask':
+        return len(ix['bs']) == n
+    return all(-n <= i < n for i in ix['is'])
+
+
+def gen_ops(rng, R, C, nmax=6, allow_bad=True, level=0, big=False, heavy=False):
+    """a selection program; tracks the (rows, cols) it expects so indices stay mostly in range.
+
+    Aliasing family: index tensors are kept in a pool and re-used (same `share` id = the SAME tensor object is
+    handed to the real code again) on the other axis or in a later step; a fresh pooled tensor is made valid for
+    both axes half of the time so that re-use on an axis of another size is common."""
     ops = []
     r, c = R, C
+    pool = []
+
+    def draw(n, other):
+        if big and max(n, 0) > 12:
+            ix = gen_big_index(rng, n, level, allow_bad, max_len=n + 2 if heavy else None)
+        else:
+            ix = gen_index(rng, n, allow_bad)
+        if not (ix['t'] == 'mask' or ix.get('as') == 'tensor'):
+            return ix
+        if pool and rng.random() < .4:
+            cand = [p for p in pool if _valid_for(p, n)] or (pool if allow_bad and rng.random() < .2 else [])
+            if cand:
+                return dict(rng.choice(cand))
+        if rng.random() < .6:
+            if ix['t'] == 'list' and rng.random() < .5 and min(n, other) >= 1:
+                m = min(n, other)
+                ix['is'] = [rng.randint(-m, m - 1) for _ in range(rng.randint(1, 4))]
+                ix['is'][rng.randrange(len(ix['is']))] = rng.randint(-m, -1)
+                ix.pop('pat', None)
+            ix['share'] = len(pool)
+            pool.append(dict(ix))
+        return ix
+
     for _ in range(rng.randint(1, nmax)):
         u = rng.random()
         if u < .12:
             ops.append({'op': 'val', 'i': rng.randint(-r - 1, r), 'j': rng.randint(-c - 1, c)})
             continue
         if u < .3:
-            ix0, ix1 = gen_index(rng, r, allow_bad), gen_index(rng, c, allow_bad)
+            ix0, ix1 = draw(r, c), draw(c, r)
             if ix0['t'] == 'int' and ix1['t'] == 'int':
                 ix1 = {'t': 'slice', 'a': None, 'b': None, 's': None}
             ops.append({'op': 'sel2', 'ix0': ix0, 'ix1': ix1})
+            if rng.random() < .1:
+                ops[-1]['twice'] = True
             r2, c2 = py_len(ix0, r), py_len(ix1, c)
             if r2 is None or c2 is None:
                 break
             r, c = r2, c2
             continue
         dim = rng.choice([0, 0, 1])
-        ix = gen_index(rng, r if dim == 0 else c, allow_bad)
-        ops.append({'op': 'sel', 'ix': ix, 'dim': dim, 'via': rng.choice(['select', 'getitem'])})
+        ix = draw(r if dim == 0 else c, c if dim == 0 else r)
+        ops.append({'op': 'sel', 'ix': ix, 'dim': dim, 'via': rng.choice(['select', 'getitem', 'api'])})
+        if rng.random() < .1:
+            ops[-1]['twice'] = True
         k = py_len(ix, r if dim == 0 else c)
         if k is None:
             break
@@ -204,6 +554,63 @@ def gen_ops(rng, R, C, nmax=6, allow_bad=True):
             r = k
         else:
             c = k
+    return ops
+
+
+BUDGET = {0: 70000, 1: 70000, 2: 140000}      # values a single step may produce (the model driver is quadratic in it)
+
+
+def program_peak(cells, C, ops):
+    """largest number of values any step of a selection program produces, by Python list semantics (a repeated index
+    multiplies the values of a heavy row / column)"""
+    ref, ncols, peak = cells, C, 0
+    for op in ops:
+        if op['op'] == 'val':
+            continue
+        try:
+            ref, ncols = ref_apply(ref, ncols, op)
+        except (IndexError, ValueError):
+            break
+        peak = max(peak, sum(len(c) for row in ref for c in row))
+    return peak
+
+
+def fit_program(make, cells, C, budget, tries=12):
+    """draw programs until one stays within the budget; the last resort is the program cut before the offending step"""
+    ops = make()
+    for _ in range(tries):
+        if program_peak(cells, C, ops) <= budget:
+            return ops
+        ops = make()
+    while ops and program_peak(cells, C, ops) > budget:
+        ops = ops[:-1]
+    return ops or [{'op': 'sel', 'ix': {'t': 'slice', 'a': None, 'b': None, 's': None}, 'dim': 0, 'via': 'select'}]
+
+
+def gen_alias_ops(rng, R, C):
+    """the aliasing family in its pure form: ONE integer index tensor (with negative entries, valid for both axes)
+    used on both axes of one m[idx, idx], or in a chain over the two axes, or twice on the same axis"""
+    m = min(R, C)
+    if m == 0:
+        return gen_ops(rng, R, C)
+    ix = {'t': 'list', 'as': 'tensor', 'share': 0,
+          'is': [rng.randint(-m, m - 1) for _ in range(rng.randint(1, 5))]}
+    ix['is'][rng.randrange(len(ix['is']))] = rng.randint(-m, -1)
+    _decorate(ix, rng)
+    form = rng.choice(['both', 'chain', 'chain', 'same-axis'])
+    via = lambda: rng.choice(['select', 'getitem', 'api'])
+    if form == 'both':
+        ops = [{'op': 'sel2', 'ix0': dict(ix), 'ix1': dict(ix)}]
+    elif form == 'chain':
+        d = rng.choice([0, 1])
+        ops = [{'op': 'sel', 'ix': dict(ix), 'dim': d, 'via': via()}, {'op': 'sel', 'ix': dict(ix), 'dim': 1 - d, 'via': via()}]
+    else:
+        d = rng.choice([0, 1])
+        k = len(ix['is'])
+        ix['is'] = [max(min(i, k - 1), -k) for i in ix['is']]
+        ops = [{'op': 'sel', 'ix': dict(ix), 'dim': d, 'via': via()}, {'op': 'sel', 'ix': dict(ix), 'dim': d, 'via': via()}]
+    if rng.random() < .3:
+        ops.append({'op': 'sel', 'ix': gen_index(rng, len(ix['is']), False), 'dim': rng.choice([0, 1]), 'via': via()})
     return ops
 
 
@@ -251,25 +658,44 @@ def ref_apply(ref, ncols, op):
     raise AssertionError
 
 
-def real_apply(cur, op):
+def real_apply(cur, op, shared=None, used=None):
+    """apply one op; `used` collects (index object, index spec) of every index handed to the real code"""
+    def mk(ix):
+        o = to_py_index(ix, shared)
+        if used is not None:
+            used.append((o, ix))
+        return o
     if op['op'] == 'sel':
-        ix = to_py_index(op['ix'])
-        if op.get('via') == 'getitem':
+        ix = mk(op['ix'])
+        via = op.get('via')
+        if via == 'getitem':
             return cur[ix] if op['dim'] == 0 else cur[:, ix]
+        if via == 'api':
+            # the other public spellings of the same selection: index_select for index tensors, narrow for a plain
+            # slice (bounds clamped like Python does), the axis written negatively otherwise
+            if isinstance(ix, torch.Tensor):
+                return cur.index_select(ix, op['dim'] - 3 if op['ix'].get('view') else op['dim'])
+            if isinstance(ix, slice) and ix.step in (None, 1):
+                a, b, _ = ix.indices(cur.size(op['dim']))
+                return cur.narrow(op['dim'], a, b - a)
+            return cur.select(ix, op['dim'] - 3)
         return cur.select(ix, op['dim'])
     if op['op'] == 'sel2':
-        return cur[to_py_index(op['ix0']), to_py_index(op['ix1'])]
+        return cur[mk(op['ix0']), mk(op['ix1'])]
     raise AssertionError
 
 
-def run_real_program(spec, payload, ops):
+def run_real_program(spec, payload, ops, root_out=None):
     """Run a selection program on the real container.
     Returns (outcomes, final container or None, findings) where findings lists direct violations of
     the property text found on the way (independent of the Lean model)."""
     cur = build_real(spec, payload)
+    if root_out is not None:
+        root_out.append(cur)          # the container the program starts from (views of it may be modified in place)
     kind = spec['kind']
     ref, ncols = [list(map(list, row)) for row in spec['cells']], spec['C']
     outs, findings = [], []
+    shared = {}
     for k, op in enumerate(ops):
         if cur is None:
             outs.append(None)
@@ -291,12 +717,14 @@ def run_real_program(spec, payload, ops):
                 findings.append((k, 'single-cell access differs from the nested list', exp, got))
             outs.append(out)
             continue
+        used = []
         try:
-            new = real_apply(cur, op)
+            new = real_apply(cur, op, shared, used)
             out = {'ok': real_repr(new, payload)}
         except Exception as e:
             new, out = None, 'raises'
             exc = type(e).__name__
+        idx_bad = not all(index_intact(o, ix) for o, ix in used)
         try:
             eref, encols = ref_apply(ref, ncols, op)
         except (IndexError, ValueError):
@@ -317,8 +745,22 @@ def run_real_program(spec, payload, ops):
                         findings.append((k, 'cells read through m[i,j] differ', eref, None))
                 except Exception as e:
                     findings.append((k, f'reading the result raises {type(e).__name__}', eref, None))
+        if op.get('twice') and new is not None and eref is not None:
+            # history on one object: the same selection once more on the same container (same index objects); the
+            # first result must be reproduced and must still be intact afterwards (no shared output buffer)
+            try:
+                again = real_repr(real_apply(cur, op, shared), payload)
+            except Exception:
+                again = 'raises'
+            if again != out['ok']:
+                findings.append((k, 'the same selection issued twice on one container gives two different results',
+                                 None, again if isinstance(again, str) else None))
+            elif real_repr(new, payload) != out['ok']:
+                findings.append((k, 'a later selection on the same container changed an earlier result', None, None))
         if real_repr(cur, payload) != before:
             findings.append((k, 'selection modified its source', before, real_repr(cur, payload)))
+        if idx_bad:
+            findings.append((k, "selection modified the caller's index tensor", None, None))
         outs.append(out)
         if new is None:
             cur = None
